@@ -363,6 +363,35 @@ add('C13','hunt2-and-keeps-callers-slice',MA,"func AndMatcher(m ...Matcher) Matc
 add('C12','hunt2-cors-keeps-callers-slices',OP,"	origin, allowHeaders, exposedHeaders = slices.Clone(origin), slices.Clone(allowHeaders), slices.Clone(exposedHeaders)\n","",'violation:C12.R15')
 addm('C17','hunt2-split-inside-a-character',[(SG,"	\"unicode/utf8\"\n",""),(SG,"		if l <= 0 || l >= len(seg.Value) || utf8.RuneStart(seg.Value[l]) {\n			return l\n		}\n\n		for l > 0 && !utf8.RuneStart(seg.Value[l]) {\n			l--\n		}\n","")],'violation:C17.R11')
 
+# ---------------- round 7: the clauses of the repairs, one by one
+add('C01','r7-untested-recursion-result',ND,"	if len(n.indexes) > 0 && len(ctx.Path) > 0 { // 普通字符串的匹配","	if len(n.children) == 1 {\n		if child := n.children[0]; child.segment.Match(ctx) {\n			return child.matchChildren(ctx)\n		}\n		return nil\n	}\n\n	if len(n.indexes) > 0 && len(ctx.Path) > 0 { // 普通字符串的匹配",'violation:C01.R1')
+addm('C13','r7-and-saves-path-per-member',[(MA,"		path := r.URL.Path\n		ps := cloneParams(ctx)\n		for _, mm := range m {\n","		ps := cloneParams(ctx)\n		for _, mm := range m {\n			path := r.URL.Path\n")],'violation:C13.R10')
+add('C02','r7-research-gives-up-at-zero',SG,"				if i < 0 {\n					return false\n				}\n				index += i + 1","				if i <= 0 {\n					return false\n				}\n				index += i + 1",'violation:C02.R14')
+add('C02','r7-benign-research-not-found-as-minus-one',SG,"				if i < 0 {\n					return false\n				}\n				index += i + 1","				if i == -1 {\n					return false\n				}\n				index += i + 1",'silent')
+add('C04','r7-remove-passes-over-trace',TR,"			case http.MethodOptions, http.MethodHead, methodNotAllowed: // OPTIONS 不作任何操作","			case http.MethodOptions, http.MethodHead, http.MethodTrace, methodNotAllowed: // OPTIONS 不作任何操作",'violation:C04.R16')
+add('C18','r7-remove-passes-over-trace',TR,"			case http.MethodOptions, http.MethodHead, methodNotAllowed: // OPTIONS 不作任何操作","			case http.MethodOptions, http.MethodHead, http.MethodTrace, methodNotAllowed: // OPTIONS 不作任何操作",'violation:C18.R11')
+add('C05','r7-index-of-the-other-text',SG,"		if l <= 0 || l >= len(seg.Value) || utf8.RuneStart(seg.Value[l]) {","		if l <= 0 || l >= len(seg.Value) || utf8.RuneStart(s1.Value[l]) {",'violation:C05.R17')
+add('C05','r7-benign-text-alias',SG,"		l := longestPrefix(s1.Value, seg.Value)\n		if l <= 0 || l >= len(seg.Value) || utf8.RuneStart(seg.Value[l]) {","		text := seg.Value\n		l := longestPrefix(s1.Value, text)\n		if l <= 0 || l >= len(text) || utf8.RuneStart(text[l]) {",'silent')
+add('C08','r7-detects-on-empty-write',RO,"	if resp.size == 0 && l > 0 {","	if resp.size == 0 {",'violation:C08.R5')
+add('C09','r7-automatic-entries-rebuilt',ME,"	if _, found := n.handlers[http.MethodOptions]; !found {\n		n.handlers[http.MethodOptions] = ApplyMiddleware(n.root.optionsBuilder(n), http.MethodOptions, pattern, n.root.Name(), ms...)\n	}","	n.handlers[http.MethodOptions] = ApplyMiddleware(n.root.optionsBuilder(n), http.MethodOptions, pattern, n.root.Name(), ms...)",'violation:C09.R5')
+add('C09','r7-benign-automatic-entries-when-empty',ME,"	if _, found := n.handlers[methodNotAllowed]; !found {","	if _, found := n.handlers[methodNotAllowed]; !found || len(n.handlers) == 0 {",'silent')
+addm('C17','r7-one-step-back',[(SG,"		for l > 0 && !utf8.RuneStart(seg.Value[l]) {\n			l--\n		}\n","		_, size := utf8.DecodeLastRuneInString(seg.Value[:l])\n		l -= size\n")],'violation:C17.R11')
+add('C07','r7-append-into-group-options',GR,"	o = slices.Concat(g.options, o)","	o = append(g.options, o...)",'violation:C07.R13')
+add('C14','r7-unstable-sort',ND,"slices.SortStableFunc(n.children,","slices.SortFunc(n.children,",'violation:C14.R11')
+add('C20','r7-restore-skipped-on-equal-count',MA,"func restoreParams(ctx *types.Context, ps map[string]string) {\n","func restoreParams(ctx *types.Context, ps map[string]string) {\n	if ctx.Count() == len(ps) {\n		return\n	}\n",'violation:C20.R6')
+
+# ---------------- round 8: code no repair touched
+add('C07','r8-deferred-reset-after-put',CT,"	if ctx != nil && len(ctx.params) <= destroyMaxSize {\n		contextPool.Put(ctx)\n	}","	if ctx == nil {\n		return\n	}\n	defer ctx.Reset()\n	if len(ctx.params) <= destroyMaxSize {\n		contextPool.Put(ctx)\n	}",'violation:C07.R3e')
+add('C07','r8-recovery-closure-releases',RO,"				r.recoverFunc(w, err)\n","				r.recoverFunc(w, err)\n				ctx.Destroy()\n",'violation:C07.R3e')
+addm('C01','r8-names-only-for-long-patterns',[(SY,"	names := make(map[string]int, len(ss))\n","	var names map[string]int\n	if len(ss) > 2 {\n		names = make(map[string]int, len(ss))\n	}\n"),(SY,"		if seg.Type != String {\n			if names[seg.Name] > 0 {","		if seg.Type != String && names != nil {\n			if names[seg.Name] > 0 {")],'violation:C01.R20')
+add('C05','r8-set-without-allocation',CT,"func (ctx *Context) Set(k, v string) {\n	if ctx.params == nil {\n		ctx.params = map[string]string{k: v}\n		return\n	}\n	ctx.params[k] = v\n}","func (ctx *Context) Set(k, v string) { ctx.params[k] = v }",'violation:C05.R18')
+add('C05','r8-checksyntax-shortcut','mux.go',"func CheckSyntax(pattern string) error {\n","func CheckSyntax(pattern string) error {\n	if pattern == \"/\" {\n		return nil\n	}\n",'violation:C05.R5')
+add('C08','r8-writestring-bypasses-write',RO,"func (resp *headResponse) Write(bs []byte) (int, error) {","func (resp *headResponse) WriteString(s string) (int, error) {\n	resp.size += len(s)\n	resp.Header().Set(header.ContentLength, strconv.Itoa(resp.size))\n	return len(s), nil\n}\n\nfunc (resp *headResponse) Write(bs []byte) (int, error) {",'violation:C08.R5')
+add('C08','r8-benign-writestring-delegates',RO,"func (resp *headResponse) Write(bs []byte) (int, error) {","func (resp *headResponse) WriteString(s string) (int, error) { return resp.Write([]byte(s)) }\n\nfunc (resp *headResponse) Write(bs []byte) (int, error) {",'silent')
+add('C11','r8-builders-crossed',GR,"g.methodNotAllowedBuilder, g.optionsBuilder, o...)","g.optionsBuilder, g.methodNotAllowedBuilder, o...)",'violation:C11.R16')
+add('C12','r8-single-header-not-joined',OP,"	if c.allowHeadersString == \"\" && len(c.AllowHeaders) > 0 {","	if c.allowHeadersString == \"\" && len(c.AllowHeaders) > 1 {",'violation:C12.R4')
+add('C03','r8-benign-priority-unchanged',ND,"	ret := int(n.segment.Type) * 10 // 10 可以保证在当前类型的节点进行加权时，不会超过其它节点。","	ret := 10 * int(n.segment.Type) // 10 可以保证在当前类型的节点进行加权时，不会超过其它节点。",'silent')
+
 for pid,entries in C.items():
     os.makedirs(os.path.join(base,pid),exist_ok=True)
     json.dump(entries,open(os.path.join(base,pid,'entries.json'),'w'),indent=1,ensure_ascii=False)
